@@ -212,7 +212,7 @@ protected:
   }
 
   inline void decodeNextString() {
-    uchar *vb = new uchar[maxlength];
+    uchar *vb = new uchar[maxlength + 5]; // a whole coded string may land here: VByte + suffix + closing symbol
     uint read = 0;
 
     uint rule;
